@@ -260,3 +260,55 @@ c08_receive!(c08_valve_receive_120, [1, 2, 0]);
 c08_receive!(c08_valve_receive_201, [2, 0, 1]);
 c08_receive!(c08_t_valve_receive_102, [1, 0, 2]);
 c08_receive!(c08_t_valve_receive_021, [0, 2, 1]);
+
+/// Reassembly for **every** arrival order in one query: three Source fragments of
+/// equal size (4 payload bytes each, all 12 bytes symbolic) are delivered one
+/// after the other; the k-th delivered fragment carries packet number p[k], with
+/// p a *symbolic permutation* of {0, 1, 2}. The reassembled reply is the
+/// concatenation in packet-number order, whatever p is.
+#[cfg(kani)]
+#[kani::proof]
+#[kani::unwind(15)]
+#[kani::stub(alloc::fmt::format, stub_format)]
+fn c08_valve_receive_any_order() {
+    let addr = any_addr_v4();
+    let p: [u8; 3] = kani::any();
+    kani::assume(p[0] < 3 && p[1] < 3 && p[2] < 3);
+    kani::assume(p[0] != p[1] && p[0] != p[2] && p[1] != p[2]);
+    // (a flat array: with a nested `[[u8; 4]; 3]` CBMC's field-sensitive encoding read a
+    // different value through the slice `&data[k]` than through `data[k][j]` - an engine
+    // artefact, the counterexample did not exist natively)
+    let data: [u8; 12] = kani::any();
+    let mut k = 0;
+    while k < 3 {
+        let mut f = Enc::new();
+        f.le32(0xFFFF_FFFE).le32(0x2A00_0001).u8(3).u8(p[k]).le16(1248);
+        f.u8(data[4 * k]).u8(data[4 * k + 1]).u8(data[4 * k + 2]).u8(data[4 * k + 3]);
+        world().push_data(f.v);
+        k += 1;
+    }
+    // the whole reply in packet-number order
+    let mut whole = [0u8; 12];
+    let mut k = 0;
+    while k < 3 {
+        let at = p[k] as usize * 4;
+        let mut j = 0;
+        while j < 4 {
+            whole[at + j] = data[4 * k + j];
+            j += 1;
+        }
+        k += 1;
+    }
+    let r = vu::receive(&addr, None, &Engine::Source(None), 17);
+    match &r {
+        Ok((header, kind, payload)) => {
+            assert!(*header == u32::from_le_bytes([whole[0], whole[1], whole[2], whole[3]]));
+            assert!(*kind == whole[4]);
+            assert!(bytes_eq(payload, &whole[5 ..]));
+            kani::cover!(p[0] == 2 && p[1] == 1 && p[2] == 0, "reversed arrival");
+            kani::cover!(p[0] == 0 && p[1] == 1 && p[2] == 2, "in-order arrival");
+        }
+        Err(_) => assert!(false),
+    }
+    core::mem::forget(r);
+}
